@@ -344,13 +344,13 @@ pub fn check_bad(b: &BadFile, obs: &mut Obs) -> Verdict {
 }
 
 fn run(ctx: &Ctx) {
-    if !ctx.run_prop("ledger_vs_gbp_twin", RULE, ctx.cases(1500, 60_000), strat, check) {
+    if !ctx.run_prop("ledger_vs_gbp_twin", RULE, ctx.cases(500, 60_000), strat, check) {
         return;
     }
-    if !ctx.run_prop("folder_aimed_at_used_months", RULE, ctx.cases(800, 30_000), strat_aimed, check) {
+    if !ctx.run_prop("folder_aimed_at_used_months", RULE, ctx.cases(250, 30_000), strat_aimed, check) {
         return;
     }
-    if !ctx.run_prop("malformed_rate_files", RULE_BAD, ctx.cases(300, 5_000), strat_bad, check_bad) {
+    if !ctx.run_prop("malformed_rate_files", RULE_BAD, ctx.cases(100, 5_000), strat_bad, check_bad) {
         return;
     }
     crate::props::proc_checks::c08_cli(ctx);
